@@ -463,7 +463,7 @@ def descr_tables():
                             segments=[elfgen.Seg(type=1, flags=code, offset=0, vaddr=0, filesz=8, memsz=8, align=1)])[0]
     T.append(('p_flags', '-l', [(str(i), i) for i in range(8)], p_flags_builder, lambda out, code: first_phdr_line(out)))
 
-    def sym_builder(field):
+    def sym_builder(field, machine=62):
         def b(code):
             E_ = '<'
             info, other, shndx = 0x12, 0, 1
@@ -476,7 +476,7 @@ def descr_tables():
             else:
                 shndx = code
             syms = elfgen.sym_pack(E_, True, 0, 0, 0, 0, 0, 0) + elfgen.sym_pack(E_, True, 1, 0x1000, 4, info, other, shndx)
-            return elfgen.build(cls=64, le=True, machine=62, etype=1,
+            return elfgen.build(cls=64, le=True, machine=machine, etype=1,
                                 sections=[elfgen.Sec('.text', 1, flags=6, data=b'\x90' * 8),
                                           elfgen.Sec('.symtab', 2, data=syms, link='.strtab', info=1, entsize=24, align=8),
                                           elfgen.Sec('.strtab', 3, data=b'\0probe\0')])[0]
@@ -491,6 +491,8 @@ def descr_tables():
     T.append(('st_bind', '-s', entries(D._DESCR_ST_INFO_BIND, E.ENUM_ST_INFO_BIND), sym_builder('bind'), symline))
     T.append(('st_visibility', '-s', entries(D._DESCR_ST_VISIBILITY, E.ENUM_ST_VISIBILITY), sym_builder('vis'), symline))
     T.append(('st_shndx', '-s', entries(D._DESCR_ST_SHNDX, E.ENUM_ST_SHNDX), sym_builder('shndx'), symline))
+    # PPC64 ELFv2 local entry point offsets live in the three high bits of st_other
+    T.append(('st_other/ppc64-localentry', '-s', [('localentry%d' % v, (v << 5) | (v & 1)) for v in range(8)], sym_builder('vis', 21), symline))
 
     def dyn_builder(machine, osabi=0):
         def b(code):
